@@ -7,6 +7,13 @@ TRUST = ("trusted base: go/types + go/ssa (x/tools v0.50.0), goyacc v0.29.0's LA
          "interface calls that leave the module (Entry, plugins) are opaque")
 
 CHECKS = {
+    "C05": dict(
+        cat="other",
+        text=("Decides the structural necessary conditions of totality and faithful failure reporting on the XPath side: instructions are only ever executed inside context.Run under a deferred recover that turns a panic into an error result; once an instruction stored an error nothing can replace it (loop exit or guarded store); every error-returning data-tree callback is tested and its error stored or raised before the value is used; accessors report the run error first; in the call cone of the five machine constructors (generated parser excluded) every index, slice, unchecked type assertion and explicit panic is discharged by a guard that must still be present or by a reviewed entry; the compile error is built with constant formats from the expression and a split of it; every lexer loop consumes a rune per iteration and leaves at EOF."),
+        ref="DESIGN.md §4 C05",
+        technique="who-may-call on the Inst.fn field, AST error-discipline and dominance rules, call-cone panic obligations with guard-fact checks and a reviewed table, loop-exit rule on the lexers",
+        note="Not decided: the goyacc driver (trusted), nil dereferences, the stack discipline that guarantees a value for well-formed programs, Entry implementations. " + TRUST,
+    ),
     "C01": dict(
         cat="other",
         text=("Decides per-instruction and per-conversion necessary conditions of XPath 1.0 scalar semantics from the source: each operator production is traced through its grammar action to the builder method, whose SSA/AST must apply the XPath operator to (left,right) in stack order; the six comparison comparators are evaluated as truth tables over the finite set of orderings of two doubles {<,=,>,NaN left,NaN right,both}; the operand type-selection order of = and != and the numeric rule for relational operators, the empty node-set rule and existential node-set comparison; boolean/number/string conversion special cases (incl. NaN, signed zero, infinities); the function table against the section 4 signatures with three-way agreement table/spec/body and the defining stdlib operation per function; and that no over-accepting Go API (ParseFloat, %v, byte lengths) sits on a conversion path. It does not compute values."),
@@ -90,7 +97,7 @@ def main():
 
 
 NA = {}
-SOURCE_COMMITS = ["e91d74a fix: reject invalid UTF-8 inside literals and QName local parts", "ad0dbf5 fix: CreateProgram no longer panics when the error position underflows", "f5b2578 fix: a submodule may have at most one organization statement", "7be1c78 fix: spell the yin-element keyword correctly", "9e6f860 fix: boolean arguments accept only true and false", "779e276 fix: integer arguments are decimal only", "b95096a fix: identifiers are ASCII as the YANG ABNF requires", "2221591 fix: NewFakeNodeByType no longer writes into the shared cardinality table", "53dc864 fix: div follows IEEE 754 for a zero denominator", "ea66e69 fix: boolean() of NaN is false", "588031e fix: round() rounds ties towards positive infinity", "362e2bb fix: string() of a number never uses exponent notation", "9ac8c0a fix: string-length() and substring() count characters, not bytes"]
+SOURCE_COMMITS = ["e91d74a fix: reject invalid UTF-8 inside literals and QName local parts", "ad0dbf5 fix: CreateProgram no longer panics when the error position underflows", "f5b2578 fix: a submodule may have at most one organization statement", "7be1c78 fix: spell the yin-element keyword correctly", "9e6f860 fix: boolean arguments accept only true and false", "779e276 fix: integer arguments are decimal only", "b95096a fix: identifiers are ASCII as the YANG ABNF requires", "2221591 fix: NewFakeNodeByType no longer writes into the shared cardinality table", "53dc864 fix: div follows IEEE 754 for a zero denominator", "ea66e69 fix: boolean() of NaN is false", "588031e fix: round() rounds ties towards positive infinity", "362e2bb fix: string() of a number never uses exponent notation", "9ac8c0a fix: string-length() and substring() count characters, not bytes", "9cf326e fix: a run stops at the first error an instruction reports"]
 
 if __name__ == "__main__":
     main()
